@@ -142,6 +142,12 @@ def offsets_for(rng, f, n):
         offs.append(([pow(w, n // 2 if n % 2 == 0 else 1, p)], 'offset_in_subgroup_-1_or_gen'))
     else:
         offs.append(([1], 'offset_in_subgroup'))
+    # chains new(n).get_coset(h1).get_coset(h2): every call REPLACES the offset and must recompute offset_inv and
+    # offset^n (a fast path for h2 = 1 on a domain that already is a coset would leave them stale)
+    h = rng.randrange(2, p)
+    offs.append(([h, 1], 'chain_h_then_1'))
+    offs.append(([h, f.g], 'chain_h_then_gen'))
+    offs.append(([1, h], 'chain_1_then_h'))
     return offs
 
 
